@@ -34,3 +34,8 @@ claim('C11', 'Coq finite-table theorems over the table regenerated from expr.py 
       'overload breaks a proof obligation. Evaluation lemmas are stated on the model and the model is compared with the library on REval '
       'requests. repr/str faithfulness is decided by evaluating eval(repr(e)) with the real Python parser over every operator x unary x '
       'side x constant-type skeleton (the printing theorem itself is listed as partial).', 'DESIGN.md 6/C11')
+claim('C12', 'Coq theorems about definitions regenerated from the live library (reflective translator) + side-against-side oracle + correspondence',
+      'gen/Names.v is regenerated on every run by reifying the objects the library exports (singletons, aliases, macros applied to symbolic '
+      'holes, operator spellings). The definitional laws are proved about those definitions, so a macro whose expansion changes breaks a '
+      'proof; FormatField-vs-BytesInteger, ByteSwapped(Int24ub) and Hex/HexDump laws are proved on the interpreters. The oracle runs both '
+      'sides of every law on all byte strings of the width (exhaustive for one byte) +-1 and on boundary / out-of-range values.', 'DESIGN.md 6/C12')
